@@ -62,7 +62,7 @@ pub fn gen_crash_base(seed: u64, mode: Mode) -> Plan {
     let clock_ms: u64 = 1_700_000_000_000 + rng.below(1_000_000);
     let open = |ids: &mut IdGen| Op {
         id: ids.next(),
-        kind: OpKind::Open { inst: 0, key: Some("k".into()), dir: "d".into(), alo, fsync: fsync.clone() },
+        kind: OpKind::Open { inst: 0, key: Some("k".into()), dir: "d".into(), alo, fsync: fsync.clone(), via_env: false },
     };
     let plen = |rng: &mut Rng| -> u64 {
         // attributable payloads only (>= header), a few of them large enough to rotate blocks
